@@ -756,7 +756,7 @@ func TestC07_Dispatch(t *testing.T) {
 		} else {
 			c.S1 = drawSlot(t, "s1", textKinds)
 			c.S2 = drawSlot(t, "s2", textKinds)
-			c.SX = drawSlot(t, "sx", []string{"absent", "absent", "absent", "name", "null", "empty"})
+			c.SX = drawSlot(t, "sx", []string{"absent", "absent", "absent", "name", "null", "empty", "nontext"})
 		}
 		if natural {
 			if q == P1 {
